@@ -152,11 +152,12 @@ class Tags:
         ops = []
         for _ in range(rng.randint(1, 4)):
             if rng.random() < 0.4:
-                ops.append({"op": "show", "ignore": rng.random() < 0.15})
+                ops.append({"op": "show", "ignore": rng.random() < 0.15,
+                            "fault": rng.choice([None, None, None, None, "fetch", "ls_tags"])})
             else:
                 ops.append({"op": "update", "flags": gp.gen_flags(rng, tree), "delta": gp.gen_clock_delta(rng),
                             "ignore": rng.random() < 0.25, "scope_flag": rng.choice([None, None, "default", "global", "branch"]),
-                            "dry": rng.random() < 0.3})
+                            "dry": rng.random() < 0.3, "fault": rng.choice([None, None, None, None, None, "fetch", "ls_tags"])})
         return {"pattern": pat["pattern"], "epoch": epoch.isoformat(), "state": state, "cfg_text": cfg_text,
                 "branches": branches, "head": rng.choice(branches), "tags": tags, "scope": scope,
                 "pers": "hg" if (not self.real and rng.random() < 0.2) else "git",
@@ -269,7 +270,12 @@ class Tags:
                 shim = fakevcs.VcsShim(None, forward_env=rg.env)
                 pre_tags = set(rg.tags())
             else:
-                shim = fakevcs.VcsShim(repo)
+                fault = None
+                if op.get("fault"):
+                    # the remote is unreachable / the tag listing fails: a failing git command (CalledProcessError)
+                    fault = fakevcs.Fault("fail_role", role=op["fault"] if op["fault"] == "fetch" else (
+                        "ls_tags_branch" if scope == "branch" and not op.get("ignore") else "ls_tags"), rc=128)
+                shim = fakevcs.VcsShim(repo, fault)
                 pre_tags = set(repo.tags)
             res = invoker.invoke(d, argv, clock, shim, fakevcs.HookShim({}))
             ctx.invocations += 1
@@ -298,6 +304,14 @@ class Tags:
             abstract = (scope, bool(op.get("ignore")), op["op"], kinds, rel, case["head"] == "main", len(case["branches"]))
             ctx.state(abstract)
             ctx.transition(abstract + (res.exit_code,))
+            injected = rg is None and op.get("fault") and fault is not None and fault.fired
+            if injected:
+                ctx.fault("vcs_fail_" + op["fault"])
+                if res.exit_code != 0:
+                    # a failed fetch / tag listing may abort the run - but then nothing may have been changed
+                    if res.changed:
+                        ctx.violation("C09", "failed_listing_changed_files", facts, "%s failed (injected) and files changed" % op["fault"])
+                    continue
             if res.exc is not None:
                 # control run: the same invocation in a tag-free project whose config holds the start version the scope
                 # rule prescribes; if that crashes the same way, the tags are not what broke the run
@@ -331,6 +345,10 @@ class Tags:
                 if not rp.accepts(tree, new):
                     ctx.violation("C01", "announced_not_accepted", dict(facts, old=got, new=new),
                                   "announced %r is not accepted in full by %r" % (new, pattern))
+                elif want and not op.get("ignore") and all(pep440.cmp(new, w_) <= 0 for w_ in want):
+                    ctx.violation("C01", "not_greater_than_scope_version", dict(facts, new=new),
+                                  "announced %r is not greater than the version the scope rule says this run starts from (%s)" % (
+                                      new, sorted(want)))
                 elif got is not None and pep440.cmp(new, got) <= 0:
                     ctx.violation("C01", "not_strictly_greater", dict(facts, old=got, new=new),
                                   "announced %r is not strictly greater than the start version %r (from %s)" % (
